@@ -151,6 +151,16 @@ def convex_qp(rng, n, m, var_kinds=None, row_kinds=None, fmt="coo", quad_rows=Fa
     return prob, x0, {"var_kinds": var_kinds, "row_kinds": row_kinds, "feasible_point": xf}
 
 
+def simplex_qp(rng, n):
+    """Strictly convex QP over the unit simplex (sum x = 1, x >= 0, some variables also bounded above) with positive linear
+    costs, started at the origin: an *infeasible vertex* of the box with the gradient pushing outward."""
+    Q = random_spd(rng, n, cond=20.0)
+    c = rng.uniform(0.2, 2.0, size=n)
+    xu = np.where(rng.uniform(size=n) < 0.4, 1.0, INF)
+    prob = GenProblem(Q, c, np.ones((1, n)), np.zeros((1, n)), np.array([1.0]), np.zeros(1), np.zeros(1), np.zeros(n), xu)
+    return prob, np.zeros(n), {}
+
+
 def boxdomain_problem(rng, n, m, fmt="coo"):
     """Smooth non-convex problem whose objective is only defined on the box (power terms)."""
     xl = rng.uniform(-1.0, 0.0, size=n)
